@@ -6,6 +6,7 @@ import (
 	"fmt"
 	"io"
 	"io/fs"
+	"math/rand"
 	"mime"
 	"net/http"
 	"os"
@@ -163,6 +164,19 @@ func checkConditionalMatches(fi *FileInfo, ifMatch, ifNoneMatch ConditionalMatch
 	return nil
 }
 
+// createTemp creates a new empty file in dir. Unlike os.CreateTemp, the file
+// gets the default permissions.
+func createTemp(dir string) (*os.File, error) {
+	for i := 0; ; i++ {
+		name := filepath.Join(dir, fmt.Sprintf(".webdav-upload-%d", rand.Uint32()))
+		f, err := os.OpenFile(name, os.O_WRONLY|os.O_CREATE|os.O_EXCL, 0666)
+		if os.IsExist(err) && i < 10000 {
+			continue
+		}
+		return f, err
+	}
+}
+
 func (fs LocalFileSystem) Create(ctx context.Context, name string, body io.ReadCloser, opts *CreateOptions) (fi *FileInfo, created bool, err error) {
 	p, err := fs.localPath(name)
 	if err != nil {
@@ -174,26 +188,34 @@ func (fs LocalFileSystem) Create(ctx context.Context, name string, body io.ReadC
 	if err := checkConditionalMatches(fi, opts.IfMatch, opts.IfNoneMatch); err != nil {
 		return nil, false, err
 	}
-	if fi != nil && fi.IsDir {
+	if (fi != nil && fi.IsDir) || path.Clean(name) == "/" {
+		// The root is always a collection, even when missing on disk
 		return nil, false, NewHTTPError(http.StatusMethodNotAllowed, fmt.Errorf("webdav: cannot PUT to a collection"))
 	}
 
-	wc, err := os.Create(p)
+	// Upload into a temporary file next to the target and move it into place
+	// once complete, so that a failed upload doesn't destroy an existing file
+	wc, err := createTemp(filepath.Dir(p))
 	if os.IsNotExist(err) || errors.Is(err, syscall.ENOTDIR) {
 		// The parent collection doesn't exist
 		return nil, false, NewHTTPError(http.StatusConflict, stripPath(err))
 	} else if err != nil {
 		return nil, false, errFromOS(err)
 	}
-	defer wc.Close()
+	tmp := wc.Name()
 
 	if _, err := io.Copy(wc, body); err != nil {
-		os.Remove(p)
+		wc.Close()
+		os.Remove(tmp)
 		return nil, false, err
 	}
 	if err := wc.Close(); err != nil {
-		os.Remove(p)
+		os.Remove(tmp)
 		return nil, false, err
+	}
+	if err := os.Rename(tmp, p); err != nil {
+		os.Remove(tmp)
+		return nil, false, errFromOS(err)
 	}
 
 	fi, err = fs.Stat(ctx, name)
